@@ -56,4 +56,3 @@ fn vecs(p: vec3<i32>, q: vec3<i32>) -> vec3<i32> { return p + q; }
 		},
 	})
 }
-
